@@ -2,6 +2,7 @@ package props
 
 import (
 	"fmt"
+	"sync/atomic"
 
 	"github.com/ipfs/go-cid"
 	"math/rand/v2"
@@ -38,7 +39,7 @@ func init() {
 					cells = append(cells, "deny/"+rule+"/"+pos)
 				}
 			}
-			cells = append(cells, "deny/first-aud/first", "deny/root/last", "dev/foreign-root", "dev/swap", "dev/dup", "dev/truncate", "dev/non-delegation")
+			cells = append(cells, "deny/first-aud/first", "deny/root/last", "dev/foreign-root", "dev/swap", "dev/dup", "dev/truncate", "dev/non-delegation", "sloppy-loader/nil-nil", "sloppy-loader/panics")
 			for n := 1; n <= 6; n++ {
 				cells = append(cells, fmt.Sprintf("allow/n=%d", n))
 			}
@@ -170,9 +171,24 @@ func posClass(why string, n int) (rule, pos string) {
 	return rule, pos
 }
 
+var hookFlavour atomic.Int64
+
+// allowed runs the check; with hook, through the args-hook variant with a hook that hands the
+// token's own arguments back - as a clone, or as a clone into which the same arguments (or a
+// second clone of them) were merged again, which changes nothing.
 func allowed(inv *invocation.Token, ld delegation.Loader, hook bool) error {
 	if hook {
-		return inv.ExecutionAllowedWithArgsHook(ld, func(a args.ReadOnly) (*args.Args, error) { return a.WriteableClone(), nil })
+		fl := hookFlavour.Add(1) % 3
+		return inv.ExecutionAllowedWithArgsHook(ld, func(a args.ReadOnly) (*args.Args, error) {
+			c := a.WriteableClone()
+			switch fl {
+			case 1:
+				c.Include(a)
+			case 2:
+				c.Include(a.WriteableClone())
+			}
+			return c, nil
+		})
 	}
 	return inv.ExecutionAllowed(ld)
 }
@@ -267,6 +283,24 @@ func runC01(w *mon.W) {
 					fmt.Sprintf("outcome depends on the invocation audience: unset -> allowed=%v (%s), %s -> allowed=%v (%s)", outcomes[0], errs[0], variants[vi].name, outcomes[vi], errs[vi]), d)
 			}
 		}
+		// sloppy loaders: one that answers (nil, nil) for a delegation it does not have, one that
+		// panics. Whatever the check does then (an error, or the panic passing through), it may
+		// not report the invocation as allowed
+		if !want && (rule == "unloadable") && it%2 == 0 {
+			for _, mode := range []string{"nil-nil", "panics"} {
+				if inv, err := s.MakeInvocation(b, s.Audience, r); err == nil {
+					var e error
+					pi := mon.Guard(func() { e = allowed(inv, &sloppyLoader{inner: b.Loader, mode: mode}, hook) })
+					w.Eval(1)
+					w.Cover("sloppy-loader/" + mode)
+					if pi == nil && e == nil {
+						d := s.Describe()
+						d["loader"] = "answers an unknown / failing CID with " + mode
+						w.Violate("unsound/sloppy-loader/"+mode, fmt.Sprintf("ExecutionAllowed = nil although a referenced delegation cannot be loaded (the loader %s for it)", map[string]string{"nil-nil": "returns (nil, nil)", "panics": "panics"}[mode]), d)
+					}
+				}
+			}
+		}
 		// history independence: the verdict for (token, loader) may not depend on earlier calls on
 		// the same token object - full loader, then a loader that lost one delegation, then the
 		// full one again
@@ -312,6 +346,23 @@ func runC01(w *mon.W) {
 			w.Sample(d)
 		}
 	}
+}
+
+// sloppyLoader turns every failure of the inner loader into (nil, nil) or into a panic.
+type sloppyLoader struct {
+	inner delegation.Loader
+	mode  string
+}
+
+func (l *sloppyLoader) GetDelegation(c cid.Cid) (*delegation.Token, error) {
+	t, err := l.inner.GetDelegation(c)
+	if err != nil || t == nil {
+		if l.mode == "panics" {
+			panic("loader: index out of range")
+		}
+		return nil, nil
+	}
+	return t, nil
 }
 
 // withoutLoader hides one delegation of an inner loader.
